@@ -281,6 +281,7 @@ class Evaluator:
         self.strict_index = False
         self.events: List[Any] = []
         self.kind_events: List[Any] = []
+        self.order_events: List[Any] = []
         self.max_steps = max_steps
 
     # -- expressions -------------------------------------------------------------------------
@@ -531,7 +532,10 @@ class Evaluator:
             raise Undecided("recursion depth")
 
     def iterate(self, v: Any) -> List[Any]:
-        if isinstance(v, (list, tuple, range, set, str)):
+        if isinstance(v, (set, frozenset)) and any(isinstance(x, str) for x in v):
+            # str hashes are salted per process: the iteration order of such a set is not reproducible
+            self.order_events.append(sorted(map(str, v))[:4])
+        if isinstance(v, (list, tuple, range, set, frozenset, str)):
             return list(v)
         if isinstance(v, Obj) and v.resolver is not None:
             return self.iterate(v.resolver(v, "__iter__")())
@@ -764,6 +768,8 @@ class Evaluator:
             if isinstance(v, Obj) and v.resolver is not None:
                 return v.resolver(v, "__len__")()
             return _len(v)
+        if d == "set" and len(n.args) <= 1 and not n.keywords:
+            return set(self.iterate(self.eval(n.args[0], env))) if n.args else set()
         if d in ("list", "tuple", "iter") and len(n.args) == 1 and not n.keywords:
             v = self.eval(n.args[0], env)
             vs = self.iterate(v)
@@ -800,6 +806,8 @@ class Evaluator:
             for x in self.iterate(args[0]):
                 acc = self.binop(ast.Add(), acc, x, n)
             return acc
+        if d == "sorted" and f is self.funcs.get(d) and args and isinstance(args[0], (set, frozenset)):
+            return sorted(args[0], **kwargs)
         if d in _ITER_BUILTINS and f is self.funcs.get(d):
             args = [self.iterate(a) if isinstance(a, Obj) and a.resolver is not None and "leaf" not in a.attrs else a for a in args]
         return f(*args, **kwargs)
